@@ -312,9 +312,13 @@ def abort_frame_and_multiplexer(chk, rule: str = "R3"):
         f = repo.func(SV, f"SdoServer.{fname}", f"{chk.prop}.{rule}")
         ff = ff_for(chk, f, f"{chk.prop}.{rule}")
         req = f.params[1]
+        srv_methods = set(repo.cls(SV, "SdoServer", f"{chk.prop}.{rule}").methods)
         risky = [n for n in ff.cfg.nodes if n.kind in ("stmt", "test") and (
             node_calls(n, "self.abort") or any(isinstance(c, ast.Call) and (dotted(c.func) or "").startswith("self._node.") for c in ast.walk(n.ast))
-            or isinstance(n.ast, ast.Raise))]
+            or isinstance(n.ast, ast.Raise)
+            # helpers of the server the handler delegates to can refuse as well
+            or any(isinstance(c, ast.Call) and isinstance(c.func, ast.Attribute) and dotted(c.func.value) == "self" and c.func.attr in srv_methods
+                   and c.func.attr not in ("send_response", "abort") for c in ast.walk(n.ast)))]
         chk.floor(rule, len(risky), 1, f"statements that can abort in {fname}")
         for attr, pos in (("_index", 1), ("_subindex", 2)):
             stores = [n for n in ff.cfg.nodes if n.kind == "stmt" and isinstance(n.ast, ast.Assign) and any(
